@@ -272,7 +272,7 @@ class System:
     def drain(self, st):
         errs = []
         ref = st['ref']
-        for rnd in range(40):
+        for rnd in range(600):
             busy = False
             e = self.apply(st, ('clock', 1))
             for x in self.names:
@@ -284,6 +284,8 @@ class System:
                     return errs
             if not busy and not any(n.internal or n.external for n in ref.nodes.values()):
                 break
+        if any(n.internal or n.external for n in ref.nodes.values()):
+            return errs + ['drain did not finish within 600 rounds (reference mailboxes not empty)']
         for x in self.names:
             if st['its'][x].execute_once() is not None:
                 errs.append('%s still produces steps after the reference mailboxes are empty' % x)
